@@ -47,7 +47,7 @@ def init_time_series(ctx):
 
         def mk():
             kw = {"run": user_run} if variant == "user-run" else {}
-            return [K.NetObj({}), [0, 1, 2], z3.Bool("continue_on_divergence"), True], kw
+            return [K.NetObj({}), [0, 1, 2], z3.Bool("continue_on_divergence"), z3.Bool("verbose")], kw
         paths = T.run_paths(ctx, TS + ":init_time_series", mk,
                             hooks={"global": ext({"init_time_series_pp": pp_init})},
                             contracts={TS + ":init_default_outputwriter": lambda ev, a, k: None})
@@ -67,8 +67,13 @@ def init_time_series(ctx):
                 ok = run is user_run
             ctx.decided("%s/run-function" % variant, "ensures", ok, witness="run = %r" % (run,))
             ctx.decided("%s/continue_on_divergence-forwarded" % variant, "ensures",
-                        len(a) >= 3 and is_z3(a[2]) and a[2].eq(z3.Bool("continue_on_divergence")),
+                        (len(a) >= 3 and is_z3(a[2]) and a[2].eq(z3.Bool("continue_on_divergence"))) or
+                        (is_z3(k.get("continue_on_divergence")) and k.get("continue_on_divergence").eq(z3.Bool("continue_on_divergence"))),
                         witness="positional args %r" % (a,))
+            ctx.decided("%s/verbose-forwarded-in-its-own-position" % variant, "ensures",
+                        (len(a) >= 4 and is_z3(a[3]) and a[3].eq(z3.Bool("verbose"))) or
+                        (is_z3(k.get("verbose")) and k.get("verbose").eq(z3.Bool("verbose"))),
+                        witness="positional args %r, keywords %r" % (a, sorted(k)))
             ctx.decided("%s/time_steps-forwarded" % variant, "ensures", len(a) >= 2 and a[1] == [0, 1, 2],
                         witness="positional args %r" % (a,))
         errs = res.get("errors") if isinstance(res, dict) else None
